@@ -316,12 +316,54 @@ def DR(kind, trace='Trace_AffTree', shard=8):
     return Stage('deep-' + kind, trace, gen=deep_random(kind), nontrivial=nt, shard_events=shard)
 
 
+# ---- seeded random histories over R^2 (trees with up to 7 decisions, wider operand sets, remove_axes as a step)
+H_ARITH2 = [('D', _aff([[1, 0]], [0]), [('L', _aff([[1, 0], [0, 1]], [0, 1])), ('L', _aff([[0, 1], [1, 0]], [1, -2]))]),
+            ('D', _aff([[1, 1]], [1]), [('L', _aff([[2, 0], [0, -1]], [0, -1])), None]),
+            ('L', _aff([[1, 1], [1, -1]], [0, 1]))]
+
+
+def history2d_random(seed, tier):
+    rnd = random.Random(777 + seed)
+    n_hist, depth = (40, 4) if tier == 'quick' else (500, 6)
+    scripts = []
+    for _ in range(n_hist):
+        steps = []
+        size = 1
+        dim = 2
+        for _ in range(depth):
+            r = rnd.random()
+            if r < 0.22:
+                steps.append({'op': 'eliminate', 'rhs': [], 'aff': NOAFF})
+            elif r < 0.30:
+                steps.append({'op': 'reduce', 'rhs': [], 'aff': NOAFF})
+            elif r < 0.36:
+                steps.append({'op': 'neg', 'rhs': [], 'aff': NOAFF})
+            elif r < 0.44:
+                steps.append({'op': 'apply_func', 'rhs': [], 'aff': rnd.choice(H_AFF)})
+            elif r < 0.54 and dim == 2:
+                # drop one input coordinate: the tree is restricted to the slice where it is 0; later operands live on R^1
+                dim = 1
+                steps.append({'op': 'remove_axes', 'rhs': [], 'aff': NOAFF, 'mask': rnd.choice([[True, False], [False, True]])})
+            elif r < 0.80 and size < 3:
+                size += 1
+                steps.append({'op': rnd.choice(['compose', 'compose_prune']), 'rhs': _script_of(rnd.choice(H_COMPOSE)), 'aff': NOAFF})
+            elif size < 3:
+                size += 1
+                steps.append({'op': rnd.choice(['add', 'sub']), 'rhs': _script_of(rnd.choice(H_ARITH2 if dim == 2 else H_ARITH)), 'aff': NOAFF})
+            else:
+                steps.append({'op': 'eliminate', 'rhs': [], 'aff': NOAFF})
+        t = _rand_tree2(rnd, 3, D_TERM22, pmiss=0.12, pleaf=0.2)
+        scripts.append({'fam': 'afftree', 'k': 2, 'q': 1, 'mode': 'history', 'lhs': _script_of(t), 'steps': steps, 'faults': [], 'all': True})
+    return scripts
+
+
 def history_stages(tier):
     # exhaustive histories of depth 2 (3) merged on the reached tree, plus seeded random histories of depth 5-6 (every step recorded)
     rnd_stage = Stage('history-random', 'Trace_AffTree', gen=history_random, nontrivial=history_nontrivial, shard_events=40)
+    rnd2_stage = Stage('history-2d', 'Trace_AffTree', gen=history2d_random, nontrivial=history_nontrivial, shard_events=12)
     if tier == 'thorough':
-        return [HS('history-t', 'MC_AffTree_history_t.cfg'), rnd_stage]
-    return [HS('history-q', 'MC_AffTree_history_q.cfg'), rnd_stage]
+        return [HS('history-t', 'MC_AffTree_history_t.cfg'), rnd_stage, rnd2_stage]
+    return [HS('history-q', 'MC_AffTree_history_q.cfg'), rnd_stage, rnd2_stage]
 
 
 def c04_stages(tier):
@@ -375,8 +417,9 @@ def DS(name, cfg, **kw):
 
 def c17_stages(tier):
     if tier == 'thorough':
-        return [DS('schema-t', 'MC_Distill_schema_t.cfg'), DS('slice-q', 'MC_Distill_slice_q.cfg', shard_events=300)]
-    return [DS('schema-q', 'MC_Distill_schema_q.cfg'), DS('slice-q', 'MC_Distill_slice_q.cfg', shard_events=300)]
+        return [DS('schema-t', 'MC_Distill_schema_t.cfg'), DS('slice-q', 'MC_Distill_slice_q.cfg', shard_events=300), history_stages(tier)[-1]]
+    # history-2d: remove_axes in the middle of operation histories
+    return [DS('schema-q', 'MC_Distill_schema_q.cfg'), DS('slice-q', 'MC_Distill_slice_q.cfg', shard_events=300), history_stages(tier)[-1]]
 
 
 def wscale_variants(scripts, seed, tier):
